@@ -8,7 +8,16 @@ namespace Petl.Snapshot
 open Petl.Gen
 
 def expectedC12 : List (String × String) := [
+  ("transform.basics.AddColumnView", "946e1a09be0e21a7"),
+  ("transform.basics.AddFieldView", "4852d8efdadc32cc"),
+  ("transform.basics.AddFieldsView", "53c09244b538d734"),
+  ("transform.basics.AddRowNumbersView", "a8a87aeb5c23628c"),
+  ("transform.basics.AnnexView", "3cd793a9682acc0b"),
+  ("transform.basics.CatView", "b1bcf802eb1634d3"),
+  ("transform.basics.CutOutView", "ee421b9f0943ec7c"),
+  ("transform.basics.CutView", "2a867b8144a190ab"),
   ("transform.basics.MoveFieldView", "faf9d612466cd19b"),
+  ("transform.basics.StackView", "b846bfc3b89a18eb"),
   ("transform.basics.iteraddcolumn", "59f86fc347c271ef"),
   ("transform.basics.iteraddfield", "56c943453c7a55a0"),
   ("transform.basics.iteraddfields", "2e933e36ad76bbcf"),
@@ -18,11 +27,25 @@ def expectedC12 : List (String × String) := [
   ("transform.basics.itercut", "27d04fca571f4fa7"),
   ("transform.basics.itercutout", "1b0087070b645f9a"),
   ("transform.basics.iterstack", "567c1bd52ee4dddc"),
+  ("transform.conversions.FieldConvertView", "b1346e6539cc1ac2"),
+  ("transform.conversions.convert", "7d0e99f18f920024"),
+  ("transform.conversions.convertall", "73d2c6238641ab6b"),
   ("transform.conversions.iterfieldconvert", "463dce8a1dd7af86"),
+  ("transform.conversions.replace", "8ead0995c13b926d"),
+  ("transform.conversions.replaceall", "b047d03a0f5a5c8e"),
+  ("transform.conversions.update", "0cdc895f11144a7e"),
+  ("transform.fills.FillDownView", "8c8a2f9498e6f75a"),
+  ("transform.fills.FillLeftView", "712a5445e3443bed"),
+  ("transform.fills.FillRightView", "9675c119322e3c41"),
   ("transform.fills.iterfilldown", "9ef9266c0a1d3f1c"),
   ("transform.fills.iterfillleft", "a74aaba5e58df795"),
   ("transform.fills.iterfillright", "e955965623f6e4b1"),
+  ("transform.headers.ExtendHeaderView", "1950129a6c159c98"),
   ("transform.headers.PrefixHeaderView", "97da2c4ba6e8bb83"),
+  ("transform.headers.PushHeaderView", "12e824dbe7c6272c"),
+  ("transform.headers.RenameView", "48e9d7e3cdcb6aa5"),
+  ("transform.headers.SetHeaderView", "b63afa9dd92826ac"),
+  ("transform.headers.SkipView", "b1408e8f2752dce6"),
   ("transform.headers.SortHeaderView", "808028889f18d6cf"),
   ("transform.headers.SuffixHeaderView", "31fd4b0392367812"),
   ("transform.headers.iterextendheader", "527fe8a6e676013c"),
